@@ -15,12 +15,15 @@ import (
 	ctrl "sigs.k8s.io/controller-runtime"
 	"sigs.k8s.io/controller-runtime/pkg/client"
 
+	"package-operator.run/internal/apis/manifests"
 	"package-operator.run/internal/constants"
 	"package-operator.run/internal/controllers/objectdeployments"
 	"package-operator.run/internal/controllers/objectsetphases"
 	"package-operator.run/internal/controllers/objectsets"
 	"package-operator.run/internal/controllers/objecttemplate"
+	pkgctrl "package-operator.run/internal/controllers/packages"
 	"package-operator.run/internal/dynamiccache"
+	"package-operator.run/internal/packages"
 	"package-operator.run/internal/packages/zzverif/kmodel"
 	"package-operator.run/internal/packages/zzverif/vsched"
 )
@@ -30,8 +33,35 @@ type World struct {
 	S      *kmodel.Store
 	Refs   map[schema.GroupVersionKind][]dynamiccache.OwnerReference
 	Budget map[string]int
-	// Informers records Get/Delete calls on the scripted informer map (not part of the state).
 	Passes int
+	// Package-level environment (immutable script, shared between clones).
+	Pkg *PackageEnv
+}
+
+// PackageEnv scripts what the Package controller sees outside the API.
+type PackageEnv struct {
+	// Images maps an image reference to its files; a missing entry makes the pull fail.
+	Images       map[string]map[string]string
+	Env          manifests.PackageEnvironment
+	HashModifier *int32
+}
+
+type countingPuller struct {
+	env  *PackageEnv
+	pass *Pass
+}
+
+func (p *countingPuller) Pull(_ context.Context, image string) (*packages.RawPackage, error) {
+	p.pass.Pulls++
+	files, ok := p.env.Images[image]
+	if !ok {
+		return nil, fmt.Errorf("scripted registry: image %q not found", image)
+	}
+	raw := &packages.RawPackage{Files: packages.Files{}}
+	for k, v := range files {
+		raw.Files[k] = []byte(v)
+	}
+	return raw, nil
 }
 
 // New returns an empty world.
@@ -41,7 +71,7 @@ func New() *World {
 
 // Clone deep-copies the world.
 func (w *World) Clone() *World {
-	n := &World{S: w.S.Clone(), Refs: map[schema.GroupVersionKind][]dynamiccache.OwnerReference{}, Budget: map[string]int{}, Passes: w.Passes}
+	n := &World{S: w.S.Clone(), Refs: map[schema.GroupVersionKind][]dynamiccache.OwnerReference{}, Budget: map[string]int{}, Passes: w.Passes, Pkg: w.Pkg}
 	for k, v := range w.Refs {
 		n.Refs[k] = append([]dynamiccache.OwnerReference{}, v...)
 	}
@@ -94,6 +124,7 @@ type Pass struct {
 	Err     error
 	Crashed bool
 	Panic   string
+	Pulls   int           // registry pulls issued by the pass (Package controller)
 	Before  *kmodel.Store // store snapshot before the pass (set when Snapshot is requested)
 }
 
@@ -224,13 +255,14 @@ func (w *World) NewEnv(actor string, pass *Pass, plan *Plan) *Env {
 const (
 	CtrlObjectSet             = "ObjectSet"
 	CtrlClusterObjectSet      = "ClusterObjectSet"
-	CtrlPhase                 = "ObjectSetPhase"             // same-cluster, class default, native owners
-	CtrlClusterPhase          = "ClusterObjectSetPhase"      // same-cluster
-	CtrlPhaseAnno             = "ObjectSetPhase/annotation"  // multi-cluster constructor, annotation owners
+	CtrlPhase                 = "ObjectSetPhase"            // same-cluster, class default, native owners
+	CtrlClusterPhase          = "ClusterObjectSetPhase"     // same-cluster
+	CtrlPhaseAnno             = "ObjectSetPhase/annotation" // multi-cluster constructor, annotation owners
 	CtrlObjectDeployment      = "ObjectDeployment"
 	CtrlClusterObjectDeploy   = "ClusterObjectDeployment"
 	CtrlObjectTemplate        = "ObjectTemplate"
 	CtrlClusterObjectTemplate = "ClusterObjectTemplate"
+	CtrlPackage               = "Package"
 )
 
 // PhaseClass is the class the phase controllers serve.
@@ -261,6 +293,14 @@ func (e *Env) controller(kind string) reconciler {
 		return objecttemplate.NewObjectTemplateController(e.Client, e.Uncached, log, e.Cache, Scheme, Mapper, objecttemplate.ControllerConfig{})
 	case CtrlClusterObjectTemplate:
 		return objecttemplate.NewClusterObjectTemplateController(e.Client, e.Uncached, log, e.Cache, Scheme, Mapper, objecttemplate.ControllerConfig{})
+	case CtrlPackage:
+		if e.W.Pkg == nil {
+			panic("world: Package controller needs World.Pkg")
+		}
+		c := pkgctrl.NewPackageController(e.Client, e.Uncached, log, Scheme, &countingPuller{env: e.W.Pkg, pass: e.hook.pass}, nil, e.W.Pkg.HashModifier, nil)
+		env := e.W.Pkg.Env
+		c.SetEnvironment(&env)
+		return c
 	}
 	panic("unknown controller kind " + kind)
 }
